@@ -6,15 +6,21 @@ CFG = {
              "with all seven optional attributes present/absent, document and instance libs with every plist type incl. "
              "data, date, nested arrays/dicts; strings with XML metacharacters, non-BMP, inner/edge blanks; f32 boundary "
              "bit patterns) -> DesignSpaceDocument::save -> ::load and -> python xml.etree; ~4% documents outside the stated "
-             "well-formedness and ~10% with one kind of known trouble. Every generated document has at least one axis "
+             "well-formedness and ~10% with one kind of known trouble; every other document is saved over an existing longer file. "
+             "Second stream (tag foreign-surface, 1 500 quick / 30 000 thorough): well-formed documents written by an independent "
+             "writer in other tools' spelling (other/no declaration, BOM, CRLF/tab/no indentation, shuffled single-quoted "
+             "attributes, character references, CDATA, comments, explicit close tags, 400.0/4e2 numbers, hidden=\"1\", wrapped "
+             "<data>, format-5 elements norad ignores) -> ::load; oracle: loaded == description. Every generated document has at least one axis "
              "attribute table, location and number to get right, so every case counts as non-trivial; distinct by input tokens"),
     "exhaustive": {"quick": False, "thorough": False},
     "timeout": {"quick": 600, "thorough": 7200},
     "trusted_base": COMMON_TRUST + [
         "modelled, not verified: quick-xml 0.37 serializer/deserializer (field -> attribute/element mapping, text trimming, xs:list splitting, escaping), serde derive, plist::Dictionary (IndexMap insert semantics)",
-        "codec parameter (hypothesis CodecLaws of the theorems): f32/f64/i64/u64 Display and FromStr round trip for non-NaN values, base64 STANDARD, plist::Date RFC 3339 formatting; the driver instantiates it per line from Rust's own to_string/to_xml_format output printed by the harness and checks the assumed laws on every such string (tag codec-law-broken)",
+        "codec parameter (hypothesis CodecLaws of the theorems; satisfiable: codec_laws_satisfiable; the integer and base64 parts are proved for the Lean implementations the driver runs, the float Display and RFC 3339 date parts remain hypotheses): f32/f64/i64/u64 Display and FromStr round trip for non-NaN values, base64 STANDARD, plist::Date RFC 3339 formatting; the driver instantiates it per line from Rust's own to_string/to_xml_format output printed by the harness and checks the assumed laws on every such string (tag codec-law-broken)",
         "python3 xml.etree (expat) as the independent XML reader; harness/src/c18_xmltree.py turns its tree into protocol tokens",
-        "driver-side conformView (attribute-value and line-end normalisation of a conforming XML processor) used to predict what xml.etree sees",
+        "Spec.conformView (attribute-value and line-end normalisation of a conforming XML processor) predicts what xml.etree sees; ds_spec_reader_finds_values is stated over it",
+        "the independent foreign-surface writer in harness/src/c18.rs (its files are checked to be XML by xml.etree on every case)",
+        "driver-side dropBlankInContainers (quick-xml skips white-space-only text events) on the load-only streams",
     ],
     "assumptions": [
         "the model follows branch fix/ds (two fix: commits); on the pinned tree the data/date and processing=last witnesses in corpus/C18 are reported as violations",
